@@ -199,7 +199,7 @@ def vpar_advect_ref(F, speed, dt, eta, c, edge):
 # ---------------------------------------------------------------------------
 # quasi-neutrality (C15): dense Galerkin solve per mode (DESIGN.md Appendix A)
 # ---------------------------------------------------------------------------
-def qn_ref(R, eta, c, chi, adiabatic=True, degree=7):
+def qn_ref(R, eta, c, chi, adiabatic=True, degree=7, Bfield=1.0):
     """R: real or complex density (r, theta, z) -> potential (r, theta, z), complex."""
     r, q = eta[0], eta[1]
     p = 3
@@ -214,7 +214,7 @@ def qn_ref(R, eta, c, chi, adiabatic=True, degree=7):
     pts = pts.ravel()
     B = BSpline.design_matrix(pts, T, p).toarray()
     dB = np.stack([BSpline(T, np.eye(nb)[j], p).derivative()(pts) for j in range(nb)], axis=1)
-    B0 = 1.0                                      # the driver uses the default B = 1
+    B0 = float(Bfield)                            # the driver uses the default B = 1
     Bc = -(1 / pts + n0deriv_normalised(pts, c))
     Cc = B0 * B0 / Te(pts, c)
     Dc = -1 / pts ** 2
